@@ -16,6 +16,7 @@ func init() {
 
 func runC16(c *Ctx) {
 	L := c.L
+	c.checkOrfNormalisation("orf-normalisation")
 	ph := c.fn("align", "*phaser", "Phase")
 	sc := c.fn("align", "*seqbag", "SequencesChan")
 	c.checkJoinProtocol(ph, "")
